@@ -336,6 +336,12 @@ def h_preempt(ctx, scenario, hub, bound, nondefault=False):
             with s.synchronized():
               if d > 1: return section(d - 1)
               insec[0] += 1
+              # while a foreign thread is inside, the scheduler thread is parked in the SyncTask (blocked on its out-lock, or between letting
+              # the caller in and blocking) - wherever else it is, cooperative code can run concurrently with the section
+              b = sched.blocked; wh = sched.where
+              parked = (b is not None and b[2] == 'Lock.acquire') or (wh is not None and wh[0] == 'run' and 'outlock' in ctl.stmt_text(R.__file__, wh[1]))
+              if not parked and not any('not parked' in x for x in problems):
+                problems.append('a foreign thread is inside the synchronized section while the scheduler thread is not parked (it is at %r)' % (wh,))
               ctl.mark('in-section-1'); ctl.mark('in-section-2')
               insec[0] -= 1
           section(depth)
